@@ -13,7 +13,12 @@ harness/c11.go so that megabytes need not travel on the case line):
 `bout`/`berr` are the pre-attach bursts (written first), `out`/`err` the later
 writes in order.  The reader cut sizes and the select order — which the
 harness cannot observe — are drawn from `cseed`; by the C11 theorems the
-result does not depend on them.  Output: `ok out=<len>:<fnv1a64> err=<len>:<fnv1a64>`.
+result does not depend on them.  A `w` in `steps` is an idle period of `idle`
+ms: the writes before the first `w` (and the bursts) form phase 0, sent at
+time 0 after the attach, those up to the next `w` phase 1 at time `idle`, …;
+the connection outlives the script.  On gRPC the phases go through
+`grpcExecTimed` (the stream's lifetime is a fact of the source); net/rpc has no
+per-stream context.  Output: `ok out=<len>:<fnv1a64> err=<len>:<fnv1a64>`.
 No theorem depends on this file.
 -/
 namespace GoPlugin.Oracle.C11
@@ -68,6 +73,24 @@ def draws : Nat → UInt64 → Nat → List Nat → List Nat × UInt64
   | 0, s, _, acc => (acc, s)
   | n + 1, s, bound, acc => let (v, s') := smNext s; draws n s' bound ((v.toNat % bound) :: acc)
 
+/-- (#stdout writes, #stderr writes) of each phase of a step string (`w` separates phases) -/
+def phaseCounts (steps : List Char) : List (Nat × Nat) :=
+  let (done, cur) := steps.foldl (fun (acc : List (Nat × Nat) × (Nat × Nat)) ch =>
+    let (done, (o, e)) := acc
+    if ch = 'w' then (done ++ [(o, e)], (0, 0))
+    else if ch = 'b' || ch = 'p' then (done, (o + 1, e + 1))
+    else if ch = 'o' then (done, (o + 1, e))
+    else if ch = 'e' then (done, (o, e + 1))
+    else (done, (o, e))) ([], (0, 0))
+  done ++ [cur]
+
+/-- cut the write lists into phases -/
+def cutPhases : List (Nat × Nat) → List Bytes → List Bytes → List (Bytes × Bytes)
+  | [], _, _ => []
+  | [_], outs, errs => [(outs.flatten, errs.flatten)]          -- the last phase takes what is left
+  | (o, e) :: rest, outs, errs =>
+    ((outs.take o).flatten, (errs.take e).flatten) :: cutPhases rest (outs.drop o) (errs.drop e)
+
 def run (_tag : String) (kv : KV) : String :=
   match parseWrite (kv.getD "bout" "-"), parseWrite (kv.getD "berr" "-"),
         parseWrites (kv.getD "out" "_"), parseWrites (kv.getD "err" "_"), (kv.getD "cseed" "0").toNat? with
@@ -82,7 +105,14 @@ def run (_tag : String) (kv : KV) : String :=
     let (errCuts, s2) := draws (errW.length / per + 2) s1 bound []
     let (ch, _) := draws ((outW.length + errW.length) / per + 4) s2 2 []
     let choices := ch.map (· == 1)
+    let steps := (kv.getD "steps" "").toList
+    let idle := ((kv.getD "idle" "0").toNat?).getD 0
     let w := if netrpc then rpcExec P outCuts errCuts choices outW errW
+             else if steps.contains 'w' then
+               let phases := match cutPhases (phaseCounts steps) outs errs with
+                 | [] => []
+                 | (o, e) :: rest => (bout ++ o, berr ++ e) :: rest
+               grpcExecTimed P (phases.length * idle + 1) idle outCuts errCuts choices phases
              else grpcExec P outCuts errCuts choices outW errW
     s!"ok out={digest w.out} err={digest w.err}"
   | _, _, _, _, _ => "bad-case"
